@@ -29,6 +29,7 @@ import subprocess
 import sys
 
 from . import common, tlc, project, cliargs
+from .exc import exc_name
 from .c05 import tiny_formulas, mk_formula
 
 SWITCH3 = list(itertools.product((False, True), repeat=3))       # (no flips, no var perm, no clause perm)
@@ -113,7 +114,7 @@ def lib_record(rid, N, clauses, af, ap, ac, seed, route="lib", kf=None):
     except Exception as e:                                  # noqa: BLE001 (projected, judged by TLC)
         rec["G"] = {"nvars": 0, "clauses": []}
         rec["hasw"], rec["w"] = 0, dict(NOW)
-        rec["outcome"] = type(e).__name__
+        rec["outcome"] = exc_name(e)
     return rec
 
 
@@ -190,7 +191,7 @@ def tool_record(rid, wd, N, clauses, sw, seed, long, sub, kf=None, stdin=False):
             text = out.getvalue()
             rec["outcome"] = "ok"
         except BaseException as e:                          # noqa: BLE001 (SystemExit included)
-            rec["outcome"] = type(e).__name__
+            rec["outcome"] = exc_name(e)
         finally:
             msg._prefix = ""
             os.environ.pop("CNFGEN_VERIF_TRACE", None)
@@ -251,7 +252,7 @@ def tshuffle_record(rid, wd, base, sw, seed, long, pre=(), double=False):
     except BaseException as e:                              # noqa: BLE001
         rec["G"] = {"nvars": 0, "clauses": []}
         rec["hasw"], rec["w"] = 0, dict(NOW)
-        rec["outcome"] = type(e).__name__
+        rec["outcome"] = exc_name(e)
     finally:
         os.environ.pop("CNFGEN_VERIF_TRACE", None)
         with contextlib.suppress(OSError):
@@ -643,7 +644,7 @@ def main(argv=None):
     ck.cover["largest_formula"] = [max(r["F"]["nvars"] for r in recs), max(len(r["F"]["clauses"]) for r in recs)]
     for r in (recs[5], next(r for r in recs if r["route"] == "cnfshuffle"),
               next(r for r in recs if r["route"] == "T-shuffle"),
-              next(r for r in recs if r["outcome"] == "ValueError")):
+              next((r for r in recs if r["outcome"] == "ValueError"), recs[0])):
         ck.sample(r)
     ck.judge("JudgeShuffle", recs, cfg="JudgeShuffle.cfg", keyf=keyf, weight=weight)
     if not ck.args.keep:
